@@ -102,3 +102,38 @@ Definition req_abs (s : state) : greq :=
       (rcall_active s)
       (match s_creq s with Some (off, _, _) => Some off | None => None end)
       (s_lc s).
+
+(* ---------- the honest broker over a partition log ---------- *)
+(* a partition log, as far as the consumer model sees it: the offsets of its entries, strictly increasing, gaps allowed
+   (compaction).  Keys and values travel with the offsets (SourcedMessage built from the decoded message as is,
+   consumer.py:948-956) and are compared on the implementation side against the simulated broker's log. *)
+Fixpoint increasing (l : list Z) : Prop :=
+  match l with
+  | [] => True
+  | x :: r => match r with [] => True | y :: _ => x < y end /\ increasing r
+  end.
+Fixpoint increasingb (l : list Z) : bool :=
+  match l with
+  | [] => true
+  | x :: r => match r with [] => true | y :: _ => x <? y end && increasingb r
+  end.
+
+(* the entries of the log with  lo <= offset < hi *)
+Definition seg (lo hi : Z) (log : list Z) : list Z := filter (fun x => (lo <=? x) && (x <? hi)) log.
+Definition from (lo : Z) (log : list Z) : list Z := filter (fun x => lo <=? x) log.
+
+(* an honest reply to fetch(off, max_bytes): a contiguous run of the log that starts at or before the first entry
+   >= off (a compressed wrapper is returned whole, so entries below off may precede), cut anywhere by max_bytes *)
+Definition honest (log : list Z) (off : Z) (offs : list Z) : Prop :=
+  exists pre post, log = pre ++ offs ++ post /\ Forall (fun x => x < off) pre.
+Fixpoint is_prefix (a b : list Z) : bool :=
+  match a, b with
+  | [], _ => true
+  | x :: a', y :: b' => (x =? y) && is_prefix a' b'
+  | _ :: _, [] => false
+  end.
+Definition honestb (log : list Z) (off : Z) (offs : list Z) : bool :=
+  match offs with
+  | [] => true
+  | h :: _ => forallb (fun x => x <? off) (filter (fun x => x <? h) log) && is_prefix offs (filter (fun x => h <=? x) log)
+  end.
